@@ -353,7 +353,7 @@ class File:
         clsname = "metadata"
         if not name:
             name = str(obj.name)
-        sec = self._h5group.open_group("sections", True)
+        sec = self._h5group.open_group(clsname, True)
         if name in sec:
             raise NameError("Name already exist. Possible solution is to "
                             "provide a new name when copying destination "
@@ -364,9 +364,9 @@ class File:
 
         if not children:
             for prop in obj.props:
-                self.sections[obj.name].create_property(copy_from=prop, keep_copy_id=keep_id)
+                self.sections[name].create_property(copy_from=prop, keep_copy_id=keep_id)
 
-        return self.sections[obj.name]
+        return self.sections[name]
 
     def flush(self):
         self._h5file.flush()
@@ -438,7 +438,7 @@ class File:
         :returns: The newly created section.
         :rtype: nixio.Section
         """
-        if name in self.sections:
+        if name in self._metadata:
             raise DuplicateName("create_section")
         sec = Section.create_new(self, self, self._metadata, name, type_, oid)
         return sec
